@@ -113,7 +113,7 @@ class DecFileParser:
                 if not filename.is_file():
                     raise FileNotFoundError(f"{str(filename)!r}!")
 
-                with filename.open(encoding="utf_8") as file:
+                with filename.open(encoding="utf_8_sig") as file:
                     for line in file:
                         # We need to strip the unicode byte ordering if present before checking for *
                         beg = line.lstrip("\ufeff").lstrip()
